@@ -232,6 +232,11 @@ func c19Oracle(c *vlib.Case) *vlib.Violation {
 		if o.Msg == "the directive is not allowed ("+k+")" {
 			for _, at := range occ[k] {
 				if at[0] == o.File && at[1] == fmt.Sprint(o.Line) {
+					// the error is on the banned directive; its index, line, column, quote and include trace must be
+					// truthful as for any error (the location oracle of C07 on the same build)
+					if v := c07Oracle(c); v != nil {
+						return vlib.V("c19:not-allowed-error-location:"+strings.TrimPrefix(v.Sig, "c07:"), "banned %v: %s", p.Banned, v.Detail)
+					}
 					return nil
 				}
 			}
